@@ -3,6 +3,7 @@ import glob
 import json
 import os
 from . import common as C
+from . import corpora
 from . import tracecheck as T
 
 
@@ -60,6 +61,9 @@ def run(pid, tier, seed, replay, batches_quick, batches_thorough, relevant_cmds=
                     for c in corpus:
                         f.write(open(c).read() + "\n")
                 runs.append(("corpus", T.TraceRun(d, "corpus").run(script=script)))
+            gscript = os.path.join(d, "directed.script")
+            if corpora.write_for(pid, tier, gscript):
+                runs.append(("directed", T.TraceRun(d, "directed").run(script=gscript)))
             batches = batches_thorough if tier == "thorough" else batches_quick
             for i, (profile, backend, cases, length) in enumerate(batches):
                 tag = "%s-%s-%d" % (profile, backend, i)
